@@ -19,6 +19,7 @@ import (
 	webp "github.com/deepteams/webp"
 	"github.com/deepteams/webp/animation"
 	"github.com/deepteams/webp/mux"
+	"github.com/deepteams/webp/sharpyuv"
 
 	"verif/ev"
 	"verif/gen/vp8"
@@ -314,6 +315,88 @@ func c11Catalogue(c *ev.Ctx) (entries []c11Entry, core int) {
 		}
 		return ev.Sum(b.Bytes()) + fmt.Sprint(d.NumFrames()), [][]byte{b.Bytes()}
 	})
+	// the public sharpyuv package: pure functions over package-level tables that are built lazily
+	for _, tf := range []sharpyuv.TransferFunc{sharpyuv.TransferSRGB, sharpyuv.TransferBT709, sharpyuv.TransferPQ, sharpyuv.TransferHLG, sharpyuv.TransferLinear} {
+		tf := tf
+		add(fmt.Sprintf("sharpyuv/LinearToGamma/tf%d", tf), func() (string, [][]byte) {
+			var out []byte
+			for _, bits := range []int{8, 10, 12} {
+				for v := uint32(0); v < 1<<16; v += 251 {
+					g := sharpyuv.LinearToGamma(v, bits, tf)
+					out = append(out, byte(g), byte(g>>8))
+				}
+			}
+			return ev.Sum(out), nil
+		})
+		add(fmt.Sprintf("sharpyuv/GammaToLinear/tf%d", tf), func() (string, [][]byte) {
+			var out []byte
+			for _, bits := range []int{8, 10, 12} {
+				for v := 0; v < 1<<bits; v += 7 {
+					l := sharpyuv.GammaToLinear(uint16(v), bits, tf)
+					out = append(out, byte(l), byte(l>>8), byte(l>>16), byte(l>>24))
+				}
+			}
+			return ev.Sum(out), nil
+		})
+	}
+	rgb := make([]byte, 37*23*3)
+	for i, q := 0, img.Gen(r, "tiles", "opaque", 37, 23); i < 37*23; i++ {
+		copy(rgb[3*i:3*i+3], q.Pix[4*i:4*i+3])
+	}
+	for k, mt := range []sharpyuv.MatrixType{sharpyuv.MatrixWebP, sharpyuv.MatrixRec601Full, sharpyuv.MatrixRec709Limited} {
+		mt := mt
+		for _, sharp := range []bool{true, false} {
+			sharp := sharp
+			tf := []sharpyuv.TransferFunc{sharpyuv.TransferSRGB, sharpyuv.TransferBT709, sharpyuv.TransferLinear}[k]
+			add(fmt.Sprintf("sharpyuv/Convert/matrix%d/sharp=%v", mt, sharp), func() (string, [][]byte) {
+				y := image.NewYCbCr(image.Rect(0, 0, 37, 23), image.YCbCrSubsampleRatio420)
+				if err := sharpyuv.Convert(rgb, 37, 23, 37*3, y, &sharpyuv.Options{Matrix: sharpyuv.GetConversionMatrix(mt), TransferType: tf, SharpEnabled: sharp}); err != nil {
+					return errDigest(err), nil
+				}
+				return ev.Sum(y.Y) + ev.Sum(y.Cb) + ev.Sum(y.Cr), [][]byte{y.Y, y.Cb, y.Cr}
+			})
+		}
+	}
+	// readers that work on the caller's own bytes (no private copy): the same slice is handed over on every call, so a
+	// decode that scribbles on its input (in-place un-filtering of an uncompressed ALPH plane, say) changes the next result
+	for fl := 1; fl <= 3; fl++ {
+		vp, _ := vp8.Synthesize(rng(c, 600+fl), vp8.Params{W: 21, H: 13})
+		al := make([]byte, 1+21*13)
+		r.Read(al)
+		al[0] = byte(fl << 2) // no compression, filter fl
+		mm := mux.NewMuxer()
+		for k := 0; k < 2; k++ {
+			pre := append(chunk("ALPH", al), vp...)
+			mm.AddFrame(pre, &mux.FrameOptions{Duration: 30 + k})
+		}
+		var fb bytes.Buffer
+		mm.Assemble(&fb)
+		file := fb.Bytes()
+		for _, par := range []bool{false, true} {
+			par := par
+			add(fmt.Sprintf("animdec/callers-bytes/alph-raw-filter%d/parallel=%v", fl, par), func() (string, [][]byte) {
+				an, err := animation.DecodeBytes(file)
+				if err != nil {
+					return errDigest(err), nil
+				}
+				if par {
+					err = an.DecodeFramesParallel()
+				} else {
+					err = an.DecodeFrames()
+				}
+				if err != nil {
+					return errDigest(err), nil
+				}
+				var keep [][]byte
+				d := ""
+				for _, f := range an.Frames {
+					d += imgDigest(f.Image)
+					keep = append(keep, keepOf(f.Image)...)
+				}
+				return ev.Sum([]byte(d)), keep
+			})
+		}
+	}
 	return entries, core
 }
 
